@@ -310,7 +310,7 @@ def run_check(check, tier, seed, budget_s=None, workers=None, nplans=None, selft
     cov["harness_problems"] = harness[:5]
     cov["plans_discarded_for_workload_bound"] = len(discarded)
     cov["plans_discarded_for_cpu_time_bound"] = len(timed_out)
-    if len(timed_out) > max(3, 0.01 * (acc.get("plans", 0) + len(timed_out))):
+    if len(timed_out) > max(5, 0.02 * (acc.get("plans", 0) + len(timed_out))):
         harness.append({"plan": timed_out[0], "kind": "timeout",
                         "detail": f"{len(timed_out)} plans exceeded their CPU-time bound (plans {timed_out[:6]})"})
     if len(discarded) > max(3, 0.2 * (acc.get("plans", 0) + len(discarded))):
@@ -381,6 +381,8 @@ def determinism_selftest(check, runner, seed, tier, n):
                 a = outcome_digest(runner.run_plan(plan))
                 b = outcome_digest(cold.run_plan(plan))
             except HarnessError as he:
+                if he.kind in ("discard", "timeout"):
+                    continue  # the plan exceeded a workload / CPU-time bound: not executed twice, not compared
                 mism.append({"k": k, "harness": he.kind, "detail": he.detail[-500:]})
                 continue
             done += 1
